@@ -12,6 +12,7 @@ PROP = {'drive': ['Otl'], 'modules': ['SfntV.Props.C08'],
                        'C08_st_roundtrip_seqcontext1', 'C08_st_roundtrip_seqcontext3',
                        'C08_st_roundtrip_chainedseqcontext1', 'C08_st_roundtrip_chainedseqcontext3',
                        'C08_ctx_classpart', 'C08_st_roundtrip_seqcontext2', 'C08_st_roundtrip_chainedseqcontext2',
+                       'C08_gtab_roundtrip_full', 'C08_gtab_header_v11', 'C08_readlookuplist_sound',
                        'C08_featurelist_roundtrip', 'C08_gdef_roundtrip', 'C08_gtab_roundtrip',
                        'C08_gtab_nil_normal_form', 'C08_scriptlist_roundtrip', 'C08_scriptlist_encode_total',
                        'C08_gtab_scriptlist_roundtrip'],
@@ -41,22 +42,24 @@ PROP = {'drive': ['Otl'], 'modules': ['SfntV.Props.C08'],
              'boundaries and mutated bytes (streams otl.sl.*). Not repaired: the default-LangSys offset of a '
              'script with more than 10921 named language systems is written unchecked (the library knows far '
              'fewer language tags)',
-             'GSUB/GPOS table: C08_gtab_roundtrip proves header + feature list + lookup list for any script-list '
-             'bytes and C08_gtab_scriptlist_roundtrip the script list inside the table; the whole decoder gtab.Read (header, script list, feature list, lookup list with the real '
+             'GSUB/GPOS table: C08_gtab_roundtrip_full composes header, script list, feature list and lookup list '
+             '(C08_gtab_header_v11: version 1.1 headers with a feature variations offset are read the same way); the whole decoder gtab.Read (header, script list, feature list, lookup list with the real '
              'GSUB reader for lookup types 1-4) is additionally tied by value-exact correspondence (otl.gtab.read). '
              'Normal form: a nil ScriptList/FeatureList/LookupList is written and read back as the empty list '
              '(C08_gtab_nil_normal_form, repair 10)',
              'readLookupList (the Go reader of lookup lists, with its 6000-entry budget and its two-pass '
-             'extension resolution) is modelled and tied by value-exact correspondence on encoder output, '
-             'hand-built extension lookups and mutated bytes (stream otl.ll.read), but no theorem is stated '
-             'about it: the lookup-list theorem recovers the structure with the specification reader '
-             'LL.specRead, and the direct stream otl.ll.prop evaluates that reader on the bytes of the '
-             'real encoder',
-             'reader limits the encoders do not check (loud: the written table is rejected by the library reader; '
-             'hypotheses hno / hn of the theorems): GPOS 4.1/6.1 base arrays with more than 32764 anchor offsets '
-             '(6553 base glyphs x 5 classes with all but one anchor empty: "GPOS4.1 table too large"; replayable as '
-             'D otl.gpos.rt41 nb=6553 nc=5) and GPOS 2.2 with class1Count*class2Count >= 65536 (only if every value '
-             'record is nil). Not repaired: degenerate inputs, and it is not clear which side should change',
+             'extension resolution) is modelled, tied by value-exact correspondence on encoder output, hand-built '
+             'extension lookups and mutated bytes (stream otl.ll.read), and proved sound against the specification '
+             'reader on every accepted byte string (C08_readlookuplist_sound; subtables as positions). Not proved: '
+             'that it accepts every encoder output (the 6000-entry budget can refuse a list the encoder wrote; the '
+             'lookup-list theorem recovers the structure with the specification reader LL.specRead)',
+             'encoder/reader disagreements (loud: the written table is rejected by the library reader): GPOS 4.1/6.1 '
+             'base arrays with more than 32764 anchor offsets and GPOS 2.2 with class1Count*class2Count >= 65536 '
+             '(all records nil) are now refused by the encoders (repairs 19, 18). Open: SeqContext3 / '
+             'ChainedSeqContext3 without (input) coverage are written by the encoders and rejected by the readers '
+             '(hypothesis hne; known finding C08-context3-no-input, D otl.ctx.rt): an encoder refusal would break two '
+             'fuzz seeds of the library test suite, and the reader cannot accept the shape because apply() indexes '
+             'Input[0]',
              'GPOS 1.2: a nil record next to non-nil ones reads back as a zero record (explicit normal '
              'form, C08_gpos1_2_normal_form); 65536 records (possible only if all are nil) are outside '
              'the theorem: valueCount is then written as 0 (not repaired, no practical input)',
